@@ -10,6 +10,7 @@ include!("../../shim.rs");
 mod oracles;
 mod c01_emitters;
 mod c01_pipeline;
+mod c02_props;
 mod c03_frames;
 mod c05_spans;
 mod c15_codecs;
